@@ -1235,11 +1235,27 @@ def spanMinutes (diff : Nat) : Nat := diff / 60 % 60
 theorem span_sound (diff : Nat) (h : diff % 60 = 0) : spanHours diff * 3600 + spanMinutes diff * 60 = diff := by
   unfold spanHours spanMinutes; omega
 
-theorem spanHM_eq (diff : Nat) (h : diff % 60 = 0) :
-    spanHM diff = some ([80, 84] ++ (if spanHours diff > 0 then decStr (spanHours diff) ++ [72] else []) ++
-      (if 0 < spanMinutes diff then decStr (spanMinutes diff) ++ [77] else [])) := by
-  simp [spanHM, h, spanHours, spanMinutes]
-  split <;> simp_all
+theorem spanText_whole (fl : Nat → Str) (secs : Bool) (diff : Nat) (h : diff % 60 = 0) :
+    spanText fl secs diff = [80, 84] ++ (if spanHours diff > 0 then decStr (spanHours diff) ++ [72] else []) ++
+      (if 0 < spanMinutes diff then decStr (spanMinutes diff) ++ [77] else []) := by
+  cases secs <;> simp [spanText, h, spanHours, spanMinutes] <;> (split <;> simp_all)
 
+/-- as found, a span with seconds prints the interpreter's float minutes -/
+theorem spanText_float (fl : Nat → Str) (diff : Nat) (h : diff % 60 ≠ 0) :
+    spanText fl false diff = [80, 84] ++ (if spanHours diff > 0 then decStr (spanHours diff) ++ [72] else []) ++ (fl diff ++ [77]) := by
+  simp [spanText, h, spanHours]
+
+def spanSeconds (diff : Nat) : Nat := diff % 60
+
+theorem span_sound3 (diff : Nat) : spanHours diff * 3600 + spanMinutes diff * 60 + spanSeconds diff = diff := by
+  unfold spanHours spanMinutes spanSeconds; omega
+
+/-- repaired variant: integer hours, minutes, seconds -/
+theorem spanText_secs (fl : Nat → Str) (diff : Nat) :
+    spanText fl true diff = [80, 84] ++ (if spanHours diff > 0 then decStr (spanHours diff) ++ [72] else []) ++
+      ((if 0 < spanMinutes diff then decStr (spanMinutes diff) ++ [77] else []) ++
+       (if 0 < spanSeconds diff then decStr (spanSeconds diff) ++ [83] else [])) := by
+  simp [spanText, spanHours, spanMinutes, spanSeconds]
+  split <;> split <;> simp_all
 
 end RTV.DtRes
